@@ -773,7 +773,7 @@ pub fn run(ctx: &mut Ctx) {
             w_growth(ctx, tier);
         }
         "C18" => {
-            w3_histories(ctx, tier.pick(60, 8_000, 200_000), tier.pick(15, 60, 300), tier.pick(200, 400, 900));
+            w3_histories(ctx, tier.pick(60, 120_000, 1_500_000), tier.pick(15, 60, 300), tier.pick(200, 400, 900));
             w4_hostile(ctx);
             w_growth(ctx, tier);
         }
